@@ -263,6 +263,36 @@ def compute(repo):
     return mod, res
 
 
+def protection_probes(ctx, rule, m, a, b):
+    # the test itself, evaluated by the checker's own interpreter on probe replacement texts
+    probes = ['\\textemdash', 'a\\b', '\\"\\cyra', '\\`\\CYRE', 'abc', '\\%', '{\\a}', '\\a{}',
+              '\\a ', '\\ABC', 'x\\abc', '', '\\', '\\1', '\\c{c}', '\\cyrchar\\CYROMEGA',
+              '\\ensuremath{\\alpha}', '\\textbackslash', "\\'e", '\\i']
+    for f in (a, b):
+        bad, unk = [], None
+        for pr in probes:
+            want = re.search(r'\\[A-Za-z]+$', pr) is not None
+            try:
+                got = _protects(m, f, pr)
+            except _CannotEval as e:
+                unk = str(e)
+                break
+            if got != want:
+                bad.append('%r is %s' % (pr, 'protected' if got else 'left unprotected'))
+        cons = '%s: dangling-control-word test on probe texts' % f.name
+        if unk is not None:
+            ctx.unknown(rule, m, f, 'test not evaluable: %s' % unk, construct=cons)
+        else:
+            ctx.decide(rule, not bad, m, f,
+                       'protects exactly the %d probe texts that end with a control word' % sum(
+                           1 for pr in probes if re.search(r'\\[A-Za-z]+$', pr)),
+                       '%s misjudges replacement texts: %s -- a replacement ending with a control word '
+                       'that is left unprotected fuses with a following letter / swallows a following '
+                       'space, so the character does not survive the round trip'
+                       % (f.name, '; '.join(bad[:4])), construct=cons)
+
+
+
 class _CannotEval(Exception):
     pass
 
@@ -420,6 +450,11 @@ def run(ctx):
     ctx.rule('R08b', 'the protection schemes `braces` and `braces-after-macro` decide "the replacement '
                      'ends with a control word" by the same test; a regular expression used for it '
                      'accepts upper- and lower-case letters', 2)
+    ctx.rule('R08g', 'the encoder normalises the WHOLE input to NFC before encoding (the round trip is stated up '
+                     'to NFC)', 1)
+    ctx.rule('R08f', 'whitespace conservation in the parser (C01 R01f): on every path through the token '
+                     'dispatcher the token\'s leading whitespace is consumed exactly once -- a space before a '
+                     'non-breaking space or a paragraph break survives the round trip', 10)
     ctx.rule('R08e', 'duplicate names inside one category resolve to the last definition, as the table '
                      'evaluation assumes (dict comprehension / dict(generator) / plain store, not setdefault)', 3)
     ctx.rule('R08d', 'the module-level helper caches encoders under a key that covers every option the '
@@ -503,32 +538,21 @@ def run(ctx):
                'other case (\\L, \\O, \\AE, ...) get no protection' % why,
                construct='dangling-control-word test: letter case')
 
-    # the test itself, evaluated by the checker's own interpreter on probe replacement texts
-    probes = ['\\textemdash', 'a\\b', '\\"\\cyra', '\\`\\CYRE', 'abc', '\\%', '{\\a}', '\\a{}',
-              '\\a ', '\\ABC', 'x\\abc', '', '\\', '\\1', '\\c{c}', '\\cyrchar\\CYROMEGA',
-              '\\ensuremath{\\alpha}', '\\textbackslash', "\\'e", '\\i']
-    for f in (a, b):
-        bad, unk = [], None
-        for pr in probes:
-            want = re.search(r'\\[A-Za-z]+$', pr) is not None
-            try:
-                got = _protects(m, f, pr)
-            except _CannotEval as e:
-                unk = str(e)
-                break
-            if got != want:
-                bad.append('%r is %s' % (pr, 'protected' if got else 'left unprotected'))
-        cons = '%s: dangling-control-word test on probe texts' % f.name
-        if unk is not None:
-            ctx.unknown('R08b', m, f, 'test not evaluable: %s' % unk, construct=cons)
-        else:
-            ctx.decide('R08b', not bad, m, f,
-                       'protects exactly the %d probe texts that end with a control word' % sum(
-                           1 for pr in probes if re.search(r'\\[A-Za-z]+$', pr)),
-                       '%s misjudges replacement texts: %s -- a replacement ending with a control word '
-                       'that is left unprotected fuses with a following letter / swallows a following '
-                       'space, so the character does not survive the round trip'
-                       % (f.name, '; '.join(bad[:4])), construct=cons)
+    protection_probes(ctx, 'R08b', m, a, b)
+
+    # ------------------------------------------------------------ R08g (shared with C04 R04f)
+    from . import c04
+    c04.nfc_whole_input(ctx, 'R08g', m, meths['unicode_to_latex'])
+
+    # ------------------------------------------------------------ R08f (shared with C01 R01f / R01b)
+    # the decoder side of the round trip must not lose whitespace: the collector consumes the
+    # leading whitespace of every token exactly once, and tokens tile their span
+    from . import c01, c05, c11
+    co_ = repo.mod(c01.COLL)
+    pot_ = co_.methods('LatexNodesCollector').get('process_one_token')
+    if pot_ is None:
+        raise AnalysisError('anchor vanished: process_one_token')
+    c01._whitespace_paths(c05._Sub(ctx, 'R08f'), co_, pot_)
 
     # ------------------------------------------------------------ R08e
     # the table evaluation above resolves duplicate names inside one category as the database does:
